@@ -170,7 +170,21 @@ class CaseRunner:
                 if chk.on_reset:
                     chk.on_reset(hh, obs, info, rep)
 
+            def sweep():
+                byc = h.classify(h.mst)
+                todo = []
+                big = len(h.acts) > 60          # many exploit definitions: many ways to be stopped by one rule
+                for cl in ("subnetfw", "hostfw", "pivot", "passblocked", "access"):
+                    todo += byc.get(cl, [])[:(120 if big and cl in ("subnetfw", "hostfw") else 14)]
+                todo = todo[:(260 if big else 48)]
+                for i in todo:
+                    rec = h.exec_gen(h.env.current_state, h.mst, h.acts[i], "lo", i, opname="sweep")
+                    on_rec(h, rec, None)
+                if record:
+                    rep.count("near-miss-sweep-executions", len(todo))
+
             ops = case["ops"]
+            sweep()                         # also in the initial state
             for i, op in enumerate(ops):
                 nops[0] = i + 1
                 res = walk.run_history(h, [tuple(op)], on_rec, on_reset,
@@ -188,6 +202,11 @@ class CaseRunner:
                     if not getattr(chk, "continue_on_divergence", False):
                         break
                     h.diverged = None       # the oracles of this check follow the REAL transitions; the model only picks ops
+            # near-miss sweep: every action stopped by exactly one network-level gate (and those that pass while some
+            # attacker position is blocked), generatively - in the final state of the history
+            nops[0] = len(ops)
+            if not h.diverged:
+                sweep()
             if chk.on_end:
                 chk.on_end(h, rep)
             if record:
